@@ -26,6 +26,8 @@ structure Comps.StartNeutral (C : Comps ℝ S E P) : Prop where
   snd : ∀ s, C.sndStart s = s
   fx : ∀ e, C.fxStart e = e
   never : ∀ s, C.sndFinished s = false
+  /-- no spatial command is pending (`Comps.spStart`, the spatial part of `read_commands`) -/
+  sp : ∀ p, C.spStart p = p
 
 /-- no command written, no sound in the ring, handle alive -/
 def TrkData.Idle (d : TrkData ℝ S E P) : Prop :=
@@ -75,6 +77,8 @@ theorem Trk.onStart_idle (hN : C.StartNeutral) (t : Trk ℝ S E P) : Trk.Idle t 
     have he : d.effects.map C.fxStart = d.effects := map_id_of _ _ (fun e _ => hN.fx e)
     rw [hs, he]
     have hps := hd.2.2.2.2.1
+    have hsp : d.spatial.map C.spStart = d.spatial := by cases d.spatial <;> simp [hN.sp]
+    rw [hsp]
     simp only [Trk.onStartList, List.reverse_nil, List.nil_append]
     cases d; simp_all
   · intro _; simp [Trk.onStartKept]
